@@ -1,6 +1,7 @@
 package props
 
 import (
+	"context"
 	"encoding/json"
 	"fmt"
 	"strings"
@@ -134,6 +135,9 @@ func c05Compile(s string, res *core.CaseResult) {
 		}
 		// (d) every machine that compiles, however odd, must run to value-or-error
 		c05RunTotal(m, in, c.name, res)
+		if c.name == "expr" {
+			c05RunCancelled(m, in, len(in)%len(c05Trees), res)
+		}
 	}
 }
 
@@ -196,6 +200,45 @@ func c05RunTotal(m *xpath.Machine, in, grammar string, res *core.CaseResult) {
 		}
 		if o.Err != "" && !allErr {
 			res.Fail("C05/run-error-and-value", in, fmt.Sprintf("%s: GetError()=%q but an accessor returned a value", mode, o.Err))
+		}
+	}
+}
+
+// c05RunCancelled: the Go context given to the run is cancelled before the run or at its k-th data-tree
+// callback.  Whatever the library makes of that, the run still ends with a value or an error.
+func c05RunCancelled(m *xpath.Machine, in string, ti int, res *core.CaseResult) {
+	clean := &xpmock.Tree{Default: c05Trees[ti].answer}
+	xpmock.Run(m, clean)
+	n := clean.NCalls
+	for k := 0; k <= n && k <= 6; k++ {
+		gctx, cancel := context.WithCancel(context.Background())
+		t := &xpmock.Tree{Default: c05Trees[ti].answer}
+		if k == 0 {
+			cancel()
+		} else {
+			kk := k
+			t.OnCall = func(i int) {
+				if i == kk {
+					cancel()
+				}
+			}
+		}
+		var o xpmock.Outcome
+		pan, msg, stack := core.Guard(func() { o = xpmock.RunCtx(gctx, m, t) })
+		cancel()
+		res.Ev("runs_with_a_cancelled_go_context", 1)
+		where := fmt.Sprintf("tree %s, Go context cancelled at callback %d of %d (0 = before the run)", c05Trees[ti].name, k, n)
+		switch {
+		case pan || o.Panic != "":
+			res.Fail("C05/cancelled-context/panic/"+core.TopRepoFrame(stack), in, where+": "+msg+o.Panic)
+		default:
+			anyValue, allErr := c05Accessors(o)
+			if o.Err == "" && !anyValue && o.NodeSetErr != "" {
+				res.Fail("C05/cancelled-context/neither-value-nor-error", in, fmt.Sprintf("%s: GetError()==nil but every accessor fails: %q %q %q %q", where, o.NumErr, o.StrErr, o.BoolErr, o.NodeSetErr))
+			}
+			if o.Err != "" && !allErr {
+				res.Fail("C05/cancelled-context/error-and-value", in, fmt.Sprintf("%s: GetError()=%q but an accessor returned a value", where, o.Err))
+			}
 		}
 	}
 }
